@@ -60,7 +60,7 @@ ONE = 1 << FRAC
 # type descriptors
 
 class TI:
-    def __init__(self, mpc, kind, p=None, char2=False, l=None, f=None):
+    def __init__(self, mpc, kind, p=None, char2=False, l=None, f=None, pmod=None):
         self.kind = kind
         self.p = p
         self.char2 = char2
@@ -68,9 +68,9 @@ class TI:
         self.f = (f or FRAC) if kind == 'fxp' else 0
         self.one = 1 << self.f
         if kind == 'int':
-            self.T = mpc.SecInt(l) if l else mpc.SecInt()
+            self.T = mpc.SecInt(l, p=pmod) if pmod else (mpc.SecInt(l) if l else mpc.SecInt())
             self.pool = [-3, -2, -1, 0, 1, 2, 3, 4]
-            self.name = 'secint' + ('(%d)' % l if l else '')
+            self.name = 'secint' + ('(%d)' % l if l else '') + (' p=%dmod4[%d bits]' % (pmod % 4, pmod.bit_length()) if pmod else '')
         elif kind == 'fxp':
             self.T = mpc.SecFxp(l, f) if l else mpc.SecFxp()
             one = self.one
@@ -122,6 +122,22 @@ class TI:
             self.public_results += 1
             return int(x)
         return self.canon_small(self.mpc.run(self.mpc.output(x)))
+
+
+
+def user_moduli():
+    """deterministic user-supplied prime moduli for SecInt(l, p=P): the first primes above 2^96 (enough for l=64 at the
+    default security parameter 30: P > 2^(l+k+1)) that are 1 mod 4 (NOT a Blum prime) and 3 mod 4"""
+    from mpyc import gmpy
+    q = 1 << 96
+    P1 = P3 = None
+    while P1 is None or P3 is None:
+        q = int(gmpy.next_prime(q))
+        if q % 4 == 1 and P1 is None:
+            P1 = q
+        if q % 4 == 3 and P3 is None:
+            P3 = q
+    return P1, P3
 
 
 # ------------------------------------------------------------------------------------------
@@ -1124,8 +1140,14 @@ async def _sim_collect(ti, kind, h):
     return ('L', [ti.canon(x) for x in v])
 
 
+def USER_MOD_KINDS():
+    P1, P3 = user_moduli()
+    pool = [-3, -2, -1, 0, 1, 2, 3, 4]
+    return [{'kind': 'int', 'l': 64, 'pmod': P1, 'pool': pool}, {'kind': 'int', 'l': 64, 'pmod': P3, 'pool': pool}]
+
+
 def _mk_ti(mpc, d):
-    return TI(mpc, d['kind'], d.get('p'))
+    return TI(mpc, d['kind'], d.get('p'), l=d.get('l'), pmod=d.get('pmod'))
 
 
 async def conc_coro(mpc, mods, pid, case):
@@ -1232,7 +1254,7 @@ def concurrency_stream(ctx):
     rng = ctx.rng
     kinds = [{'kind': 'int', 'pool': [-3, -2, -1, 0, 1, 2, 3, 4]},
              {'kind': 'int', 'pool': [-3, -2, -1, 0, 1, 2, 3, 4]},
-             {'kind': 'fld', 'p': 101, 'pool': [0, 1, 2, 3, 4, 5, 99, 100]}]
+             {'kind': 'fld', 'p': 101, 'pool': [0, 1, 2, 3, 4, 5, 99, 100]}] + USER_MOD_KINDS()
     cases = [gen_conc_case(rng, kinds) for _ in range(ctx.n(60, 300))]
     cases = [c for c in cases if c['segs']]
     names = ['RandomOrder', 'ReverseLinks', 'Hold', 'RandomOrder']
@@ -1402,7 +1424,7 @@ def aliasing_stream(ctx):
     rng = ctx.rng
     kinds = [{'kind': 'int', 'pool': [-3, -2, -1, 0, 1, 2, 3, 4]},
              {'kind': 'int', 'pool': [-3, -2, -1, 0, 1, 2, 3, 4]},
-             {'kind': 'fld', 'p': 101, 'pool': [0, 1, 2, 3, 4, 5, 99, 100]}]
+             {'kind': 'fld', 'p': 101, 'pool': [0, 1, 2, 3, 4, 5, 99, 100]}] + USER_MOD_KINDS()
     for (m, t) in ((1, 0), (3, 1)):
         # the audited late read of seclist.remove (harness/alias_audit.md), always included
         cases = [{'kind': 'int', 'init': [1, 2, 3, 2], 'op': {'op': 'remove', 'v': 2}, 'target': 'self', 'mut': mu, 'alt': 7}
@@ -1456,12 +1478,16 @@ def run(ctx):
                        'on the model (run step) and on the abstract interpreter of the theorems (run pystep); all four traces must agree')
 
     types = [TI(mpc, 'int'), TI(mpc, 'fxp'), TI(mpc, 'fld', 101), TI(mpc, 'fld', 11), TI(mpc, 'fld', 2**61 - 1)]
+    P1, P3 = user_moduli()
+    # secure integers over USER-SUPPLIED prime moduli (1 mod 4: not a Blum prime; 3 mod 4), bit lengths on both sides of
+    # 2*sec_param (the equality test switches protocol there)
+    types += [TI(mpc, 'int', l=64, pmod=P1), TI(mpc, 'int', l=64, pmod=P3), TI(mpc, 'int', l=32, pmod=P1), TI(mpc, 'int', l=64)]
     per_type = ctx.n(60, 700)
     maxops = 12
     exprs, meta = [], []
     nviol = 0
-    for ti in types:
-        for h in range(per_type):
+    for tix, ti in enumerate(types):
+        for h in range(per_type if tix < 5 else max(12, per_type // 3)):
             init, aops, cops = gen_history(rng, ti, maxops if h % 4 else 4)
             ti_tr = run_impl(ti, init, cops, seclist, secindex)
             or_tr = run_oracle(ti, init, cops)
@@ -1488,7 +1514,7 @@ def run(ctx):
             exprs.append('let x := %s in let h := [%s] in (run step x h, run pystep x h, valid_histb x h)' % (
                 zlist(init), '; '.join(coq_op(c) for c in cops)))
             meta.append(('hist', ti, key, ti_tr, or_tr))
-    ctx.log('%d histories on the implementation vs Python list: %d mismatching' % (len(types) * per_type, nviol))
+    ctx.log('%d histories on the implementation vs Python list: %d mismatching' % (ctx.evaluations, nviol))
 
     # ---- non-unit index vectors: implementation vs model only (the property does not define them)
     nraw = ctx.n(80, 600)
@@ -1591,6 +1617,7 @@ def run(ctx):
     # ---- extreme in-range values for every value-dependent operation (Python list oracle + Coq model)
     xtypes = [TI(mpc, 'int', l=8), TI(mpc, 'int', l=16), TI(mpc, 'int', l=32), TI(mpc, 'int', l=64),
               TI(mpc, 'fxp', l=32, f=16), TI(mpc, 'fxp', l=16, f=8),
+              TI(mpc, 'int', l=64, pmod=P1), TI(mpc, 'int', l=64, pmod=P3), TI(mpc, 'int', l=32, pmod=P1),
               TI(mpc, 'fld', 11), TI(mpc, 'fld', 13), TI(mpc, 'fld', 101), TI(mpc, 'fld', 257), TI(mpc, 'fld', 65537),
               TI(mpc, 'fld', 2**8, char2=True)]
     xtypes[-1].name = 'secfld(2^8)'
